@@ -165,6 +165,25 @@ Fixpoint gamma_outer (sigma gamma : list N) (is_ : list nat) : RR (list N) :=
     gamma_outer sigma g2 r
   end.
 
+(* the cfg!(debug_assertions) re-check of the triangular solve: sum_{j<=i} sigma[i-j] * gamma[j] = target_i, where target_i
+   is recomputed exactly as gamma0[i] was *)
+Fixpoint gamma_row (sigma gamma : list N) (i : nat) (js : list nat) (acc : N) : RR N :=
+  match js with
+  | [] => Ok acc
+  | j :: r =>
+    let* sg := nth_ok sigma (i - j) in
+    let* gj := nth_ok gamma j in
+    gamma_row sigma gamma i r (GF.add acc (GF.mul sg gj))
+  end.
+Fixpoint gamma_check (sigma gamma gamma0 : list N) (is_ : list nat) : RR unit :=
+  match is_ with
+  | [] => Ok tt
+  | i :: r =>
+    let* row := gamma_row sigma gamma i (seq 0 (i + 1)) 0%N in
+    let* target := nth_ok gamma0 i in
+    if N.eqb row target then gamma_check sigma gamma gamma0 r else Panic PAssertLD
+  end.
+
 (* update w, eq. (9): for (i, gamma_i) in gamma.iter().enumerate() *)
 Fixpoint upd_w (tmp w : list N) (m v : nat) (igs : list (nat * N)) : RR (list N) :=
   match igs with
@@ -227,6 +246,7 @@ Fixpoint ld_loop (fuel : nat) (syn : list N) (t : nat) (s : ld_state) : RR ld_st
                           let* sl := slice_incl syn (v + i) (2 * v - 1 + i) in
                           let* d := dot sl tmp1 in Ok (GF.add s1 d)) (seq 0 (m + 1)) in
         let* gamma := gamma_outer sigma gamma0 (seq 0 (m + 1)) in
+        let* _ := gamma_check sigma gamma gamma0 (seq 0 (m + 1)) in
         let tmp2 := resize tmp1 (n + 1) in
         let* tmp3 := upd_w tmp2 w m v (combine (seq 0 (length gamma)) gamma) in
         let s' := mkld (n + 1) y2 tmp3 in
